@@ -42,6 +42,20 @@ def check(ctx):
     r12_1(ctx, m, schema)
     r12_2(ctx, m)
     r12_3(ctx, m, schema, extras)
+    r12_4(ctx, m)
+    # the reference slice is cut from the spelled path: the spelling rules are shared with C14
+    from . import gfa_common as gc
+    from . import c14
+
+    g = gc.build(ctx, "R14")
+    c14.r14_1(ctx, g)
+    c14.r14_2_3(ctx, g)
+    from . import c16 as _c16
+    from .c19 import tag_loop as _tl, tag_regex_info as _ti
+
+    _pf, _loop = _tl(ctx, "R16.1")
+    _c16.r16_1(ctx, _pf, _loop, _ti(_pf, _loop, "R16.1"))  # optional fields survive: the parser accepts the tag grammar (shared with C16)
+    _c16.r16_2(ctx, _pf, _loop)
     ctx.not_decided += [
         "validity and optimality of the CIGAR computed by pyWFA's WavefrontAligner (C extension)",
         "the pattern/text role convention of WavefrontAligner(ref)(query) (checked only for being the same at tally and emission)",
@@ -265,3 +279,18 @@ def r12_3(ctx, m, schema, extras):
         keys = [const_value(s.targets[0].slice) for s in stores]
         want = [] if in_pass else ["cg:Z:"]
         ctx.check(keys == want, "R12.3", wf.where(guard), f"{'pass-through leaves the optional fields untouched' if in_pass else 'realignment replaces the cg field and no other'}", key_of(wf, f"tag-stores:{in_pass}:{keys}"), stores=keys)
+
+
+def r12_4(ctx, m):
+    """The aligner is the exact gap-affine WFA with its default penalties: the constructor receives the reference
+    slice and nothing that switches on a heuristic (an inexact mode can return a costlier alignment than the input)."""
+    wf = m.worker
+    ctors = [c for c in walk_own(wf.node) if isinstance(c, ast.Call) and norm(c.func).endswith("WavefrontAligner")]
+    ctx.require_count("R12.4", len(ctors), 1, wf.where(), "aligner constructions")
+    for c in ctors:
+        kws = {k.arg: norm(k.value) for k in c.keywords}
+        heur = kws.get("heuristic")
+        risky = {k: v for k, v in kws.items() if k in ("heuristic", "span", "steps_between_cutoffs", "min_wavefront_length", "max_distance_threshold", "min_k", "max_k", "pattern_begin_free", "pattern_end_free", "text_begin_free", "text_end_free", "scope", "distance") and v not in ("None",)}
+        ok = len(c.args) == 1 and not risky
+        ctx.check(ok, "R12.4", wf.where(c), "the aligner is constructed for exact, end-to-end gap-affine alignment of the reference slice (no heuristic / ends-free / score-only option)", key_of(wf, f"aligner-options:{sorted(kws.items())}"), options=kws)
+    calls = [s_ for s_ in walk_own(wf.node) if isinstance(s_, ast.Assign) and isinstance(s_.value, ast.Call) and isinstance(s_.value.func, ast.Name)]
